@@ -273,54 +273,99 @@ Fixpoint pows_ok (base : Q) (es vs : list Q) : bool :=
   | _, _ => false
   end.
 
+(* Logspace values form a geometric progression: v1^2 = v0 * v2 for consecutive values (relative 2^-36; the
+   float64 exponents lo + i*step carry up to 2 ulp(64) = 1.4e-14, times ln base <= 2.4, four times over).
+   Together with the end points (pow_ok when lo, hi have denominator <= 8) this pins the values whose own
+   exponent has a denominator > 8, which pow_ok only tests for positivity. *)
+Definition prog_rel : Q := 1 # (2 ^ 36)%positive.
+Fixpoint geo_prog (vs : list Q) : bool :=
+  match vs with
+  | v0 :: ((v1 :: v2 :: _) as t) => within (prog_rel * (v1 * v1)) (v1 * v1) (v0 * v2) && geo_prog t
+  | _ => true
+  end.
+
 Definition vec_fun (fid : Z) (x : Q) : Q :=
   if (fid =? 0)%Z then - x else if (fid =? 1)%Z then x / 2 else if (fid =? 2)%Z then 2 * x
   else if (fid =? 3)%Z then x + 1 else x.
 
-Definition p_vec : parser (bool * list Z) :=
+(* the decoded vec case *)
+Inductive vcase :=
+| VLin (lo hi : Q) (num : nat) (res : list Q)
+| VLog (lo hi : Q) (num : nat) (base : Q) (res : list Q)
+| VSum (xs : list Q) (r : xreal)
+| VMap (fid : Z) (xs r1 r2 : list Q) (u : Z)
+| VConcat (xss : list (list Q)) (r : list Q) (u : Z).
+
+Definition p_vcase : parser vcase :=
   do sub <- pZ;
   if (sub =? 0)%Z then
-    (do lo <- pQ; do hi <- pQ; do num <- pnat; do res <- plist pQ;
-     pend (lists_close (8 * ulp53 * (Qabs lo + Qabs hi)) (linspace lo hi num) res, [0%Z]))
+    (do lo <- pQ; do hi <- pQ; do num <- pnat; do res <- plist pQ; pend (VLin lo hi num res))
   else if (sub =? 1)%Z then
-    (do lo <- pQ; do hi <- pQ; do num <- pnat; do base <- pQ; do res <- plist pQ;
-     pend (pows_ok base (logspace_exponents lo hi num) res, [1%Z]))
+    (do lo <- pQ; do hi <- pQ; do num <- pnat; do base <- pQ; do res <- plist pQ; pend (VLog lo hi num base res))
   else if (sub =? 2)%Z then
-    (do xs <- plist pQ; do r <- pX;
-     pend (xwithin (tol_sum xs) (XFin (vsum xs)) r, [2%Z]))
+    (do xs <- plist pQ; do r <- pX; pend (VSum xs r))
   else if (sub =? 3)%Z then
-    (do fid <- pZ; do xs <- plist pQ; do r1 <- plist pQ; do r2 <- plist pQ; do u <- pZ;
-     pend (list_Qeq (vmap (vec_fun fid) xs) r1 && list_Qeq (vectorize (vec_fun fid) xs) r2 && (u =? 1)%Z, [3%Z]))
+    (do fid <- pZ; do xs <- plist pQ; do r1 <- plist pQ; do r2 <- plist pQ; do u <- pZ; pend (VMap fid xs r1 r2 u))
   else if (sub =? 4)%Z then
-    (do xss <- plist_any (plist pQ); do r <- plist pQ; do u <- pZ;
-     pend (list_Qeq (vconcat xss) r && (u =? 1)%Z, [4%Z]))
+    (do xss <- plist_any (plist pQ); do r <- plist pQ; do u <- pZ; pend (VConcat xss r u))
   else (fun _ => None).
 
+Definition tol_lin (lo hi : Q) : Q := 8 * ulp53 * (Qabs lo + Qabs hi).
+
+(* (agrees, diagnostics) *)
+Definition check_vec (v : vcase) : bool * list Z :=
+  match v with
+  | VLin lo hi num res => (lists_close (tol_lin lo hi) (linspace lo hi num) res, [0%Z])
+  | VLog lo hi num base res => (pows_ok base (logspace_exponents lo hi num) res && geo_prog res, [1%Z])
+  | VSum xs r => (xwithin (tol_sum xs) (XFin (vsum xs)) r, [2%Z])
+  | VMap fid xs r1 r2 u =>
+      (list_Qeq (vmap (vec_fun fid) xs) r1 && list_Qeq (vectorize (vec_fun fid) xs) r2 && (u =? 1)%Z, [3%Z])
+  | VConcat xss r u => (list_Qeq (vconcat xss) r && (u =? 1)%Z, [4%Z])
+  end.
+
 (* ---------- the line ---------- *)
-Definition check_C09 (line : list Z) : list Z :=
+Inductive c09case :=
+| KStats (sorted hasw : bool) (xs ws : list Q) (o : stat_obs)               (* kind 0 *)
+| KHist (sorted hasw : bool) (xs ws : list Q) (ops : list (hop * hobs))     (* kind 1 *)
+| KVec (v : vcase).                                                         (* kind 2 *)
+
+Definition p_line : parser c09case := fun line =>
   match line with
   | 9%Z :: 0%Z :: rest =>
-      match (do sorted <- pbool; do hasw <- pbool; do xs <- plist pQ; do ws <- plist pQ; do o <- p_stat_obs;
-             pend (sorted, hasw, xs, ws, o)) rest with
-      | Some ((sorted, hasw, xs, ws, o), _) =>
-          if hasw && negb (length ws =? length xs)%nat then verdict V_MALFORMED 0 (-1) []
-          else check_stats sorted hasw xs ws o
-      | None => verdict V_MALFORMED 0 (-1) []
-      end
+      (do sorted <- pbool; do hasw <- pbool; do xs <- plist pQ; do ws <- plist pQ; do o <- p_stat_obs;
+       pend (KStats sorted hasw xs ws o)) rest
   | 9%Z :: 1%Z :: rest =>
-      match (do sorted <- pbool; do hasw <- pbool; do xs <- plist pQ; do ws <- plist pQ;
-             do ops <- plist_any p_hop; pend (sorted, hasw, xs, ws, ops)) rest with
-      | Some ((sorted, hasw, xs, ws, ops), _) =>
-          let s0 := mkSample xs (if hasw then Some ws else None) sorted in
-          match run_hist [s0] ops 0%Z T_HIST with
-          | (code, tag, pos, diag) => verdict (if (code =? 3)%Z then V_MALFORMED else code) tag pos diag
-          end
-      | None => verdict V_MALFORMED 0 (-1) []
+      (do sorted <- pbool; do hasw <- pbool; do xs <- plist pQ; do ws <- plist pQ;
+       do ops <- plist_any p_hop; pend (KHist sorted hasw xs ws ops)) rest
+  | 9%Z :: 2%Z :: rest => (do v <- p_vcase; pret (KVec v)) rest
+  | _ => None
+  end.
+
+(* the documented requirements of the Sample type (the harness refuses to build other cases): one
+   non-negative weight per value; the Sorted flag only on ascending data *)
+Fixpoint asc (l : list Q) : bool :=
+  match l with x :: ((y :: _) as t) => Qle_bool x y && asc t | _ => true end.
+Definition sample_ok (sorted hasw : bool) (xs ws : list Q) : bool :=
+  (negb hasw || ((length ws =? length xs)%nat && forallb (Qle_bool 0) ws)) && (negb sorted || asc xs).
+
+Definition check_case (c : c09case) : list Z :=
+  match c with
+  | KStats sorted hasw xs ws o =>
+      if negb (sample_ok sorted hasw xs ws) then verdict V_MALFORMED 0 (-1) []
+      else check_stats sorted hasw xs ws o
+  | KHist sorted hasw xs ws ops =>
+      if negb (sample_ok sorted hasw xs ws) then verdict V_MALFORMED 0 (-1) [] else
+      let s0 := mkSample xs (if hasw then Some ws else None) sorted in
+      match run_hist [s0] ops 0%Z T_HIST with
+      | (code, tag, pos, diag) => verdict (if (code =? 3)%Z then V_MALFORMED else code) tag pos diag
       end
-  | 9%Z :: 2%Z :: rest =>
-      match p_vec rest with
-      | Some ((ok, d), _) => if ok then verdict V_OK T_VEC (-1) [] else verdict V_MISMATCH T_VEC 0 d
-      | None => verdict V_MALFORMED 0 (-1) []
-      end
-  | _ => verdict V_MALFORMED 0 (-1) []
+  | KVec v =>
+      let '(ok, d) := check_vec v in
+      if ok then verdict V_OK T_VEC (-1) [] else verdict V_MISMATCH T_VEC 0 d
+  end.
+
+Definition check_C09 (line : list Z) : list Z :=
+  match p_line line with
+  | Some (c, _) => check_case c
+  | None => verdict V_MALFORMED 0 (-1) []
   end.
